@@ -387,6 +387,20 @@ def case_facts(files):
                 t = resolve(u["imp"][0], u["imp"][1])
                 if t is not None and not t["imp"] and not t["defs"] and t["name"] not in FG.STANDARD_UNITS and t["name"] != u["name"]:
                     base_clash = sorted(set(base_clash) | {t["name"]})
+    # ... and the name under which a units is imported is the name of one of its own dependencies in the file it comes from
+    # (the copy, renamed, then refers to itself: C07's original example of the capture)
+    def deps(fn, name, acc, depth=0):
+        for u in files.get(fn, {"units": []})["units"]:
+            if u["name"] == name and not u["imp"] and depth < 20:
+                for d in u["defs"]:
+                    if d[0] not in FG.STANDARD_UNITS and d[0] not in acc:
+                        acc.add(d[0])
+                        deps(fn, d[0], acc, depth + 1)
+        return acc
+    for fn in cl:
+        for u in files[fn]["units"]:
+            if u["imp"] and u["name"] in deps(u["imp"][0], u["imp"][1], set()):
+                clash = sorted(set(clash) | {u["name"]})
     ids_on_imported = False
     below_placeholder = False
     for fn in cl:
